@@ -198,30 +198,7 @@ def path_nodes(p):
 
 
 # ------------------------------------------------------------ expressions
-def clone(node):
-    """copy of an AST subtree following _fields only (not the _parent back pointers)"""
-    if isinstance(node, list):
-        return [clone(x) for x in node]
-    if not isinstance(node, ast.AST):
-        return node
-    new = type(node)()
-    for f in node._fields:
-        if hasattr(node, f):
-            setattr(new, f, clone(getattr(node, f)))
-    for a in ("lineno", "col_offset", "end_lineno", "end_col_offset"):
-        if hasattr(node, a):
-            setattr(new, a, getattr(node, a))
-    return new
-
-
-class _Subst(ast.NodeTransformer):
-    def __init__(self, mapping):
-        self.mapping = mapping
-
-    def visit_Name(self, node):
-        if isinstance(node.ctx, ast.Load) and node.id in self.mapping:
-            return clone(self.mapping[node.id])
-        return node
+from ..astutil import clone, Subst as _Subst, norm_nc  # noqa: E402
 
 
 def local_defs(fn):
